@@ -159,3 +159,37 @@ func H_c05_cross() {
 	verif_assert(VerifDigest(A) == dA, "an id issued to another agent is not accepted from the parent: session unchanged")
 	verif_witness()
 }
+
+// H_c05_download_close: the close message of a download (COMMAND_FS / download, mode 2) is the
+// final callback of the download task: once a well-formed close has been processed the
+// request id is no longer accepted - whether the download it names is registered, is another
+// one, or none is registered at all (the open was refused or never seen).
+func H_c05_download_close() {
+	logr.VerifLootRoot()
+	ts, A, _, _ := verifStateS()
+	rid := nondet_u32("rid")
+	A.Tasks = append(A.Tasks, Job{RequestID: rid, Command: COMMAND_FS})
+	state := nondet_choice("downloads", 3) // 0 none registered, 1 the named one, 2 another one
+	switch state {
+	case 1:
+		verif_assume(A.DownloadAdd(0x51, "a.bin", 4) == nil)
+	case 2:
+		verif_assume(A.DownloadAdd(0x52, "b.bin", 4) == nil)
+	}
+	body := verifPutBE32(nil, DEMON_COMMAND_FS_DOWNLOAD)
+	body = verifPutBE32(body, 2)    // mode: close
+	body = verifPutBE32(body, 0x51) // file id
+	reason := nondet_u32("reason")
+	body = verifPutBE32(body, reason)
+	A.TaskDispatch(rid, COMMAND_FS, parser.NewParser(body), ts)
+	verif_assert(!A.IsKnownRequestID(ts, rid, COMMAND_FS), "a download's close message retires the download task's request id")
+	if state == 1 {
+		if reason <= 1 { // the Demon's two close reasons: finished (0), removed (1)
+			verif_assert(A.DownloadGet(0x51) == nil, "a closed download leaves the download table")
+		}
+	}
+	if state == 2 {
+		verif_assert(A.DownloadGet(0x52) != nil, "closing one download leaves the others alone")
+	}
+	verif_witness()
+}
